@@ -25,6 +25,7 @@ func isSortCall(c *ssa.CallCommon) string {
 func nondetObligations(w *World, spec *Specs, opt solveOpts) []*extraResult {
 	var out []*extraResult
 	for _, f := range w.funcs {
+		seen := map[string]int{}
 		for _, b := range f.Blocks {
 			for _, in := range b.Instrs {
 				c, ok := in.(*ssa.Call)
@@ -33,6 +34,17 @@ func nondetObligations(w *World, spec *Specs, opt solveOpts) []*extraResult {
 				}
 				if name := isSortCall(c.Common()); name != "" {
 					if r := swoSite(w, spec, f, c, name, opt); r != nil {
+						// several sort calls with the same source text in one function: keep the names apart
+						key := ""
+						if len(r.obs) > 0 {
+							key = r.obs[0].Name
+						}
+						seen[key]++
+						if seen[key] > 1 {
+							for _, o := range r.obs {
+								o.Name += fmt.Sprintf("@site%d", seen[key])
+							}
+						}
 						out = append(out, r)
 					}
 				}
@@ -74,6 +86,20 @@ func swoSite(w *World, spec *Specs, f *ssa.Function, c *ssa.Call, name string, o
 		o.Verdict, o.Solver = "unsat", "syntactic"
 		res.obs = append(res.obs, o)
 		return res
+	}
+	// ties: with an unstable sort the order of elements the comparator does not distinguish depends on the
+	// order they arrive in (which is map order wherever the slice was collected from a map)
+	{
+		stable := name == "sort.SliceStable" || name == "sort.Stable"
+		cond := "false"
+		if stable {
+			cond = "true"
+		}
+		o := e.addOb(nil, "NONDET", "stable", c.Pos(), "elements the comparator does not order keep their arrival order: "+text, cond, false)
+		if !stable {
+			o.Output = "unstable sort: ties are ordered by the input permutation"
+		}
+		res.obs = append(res.obs, o)
 	}
 	st := e.newState(sInit, nil)
 	st.nxt = "A0"
@@ -219,7 +245,7 @@ func mapRangeSites(w *World, spec *Specs, f *ssa.Function) []*extraResult {
 		if v.ok {
 			cond = "true"
 		}
-		o := e.addOb(nil, "NONDET", "maprange", rg.Pos(), text+" ["+v.class+"]", cond, false)
+		o := e.addOb(nil, "NONDET", "maprange", rg.Pos(), fmt.Sprintf("%s (loop %d) [%s]", text, li.ord, v.class), cond, false)
 		if v.ok {
 			o.Verdict, o.Solver = "unsat", "dataflow"
 		} else {
